@@ -7,13 +7,16 @@ at the level of JSON values; the schema interpreter (Model/Schema.lean) reads th
 schemas on every run, and the ranges `Gen.nodeIdMin/Max`, `Gen.minBattery/maxBattery` — a changed
 field, kind, `required` flag or validator range changes the statements below.
 
-Text ↔ JSON value (`json.dumps(sort_keys=True)`, `json.loads`) is trusted: the model's `save` lists
-members in the registry's insertion order, the file has them sorted; the correspondence run compares
-the two as Python compares dicts.  `Node.reboot` is not a schema field, so a loaded node always has
+Text ↔ JSON value (`json.dumps(sort_keys=True, indent=2)`, `json.loads`) is modelled in
+`Model/JsonText.lean` and the round trip is carried through it at the end of this file
+(`saved_text_round_trip`, `saved_bytes_accepted`).  The value-level model's `save` lists members in the
+registry's insertion order, the file has them sorted (`Persist.saveSorted`); the correspondence run
+compares the former as Python compares dicts and the file's bytes with `Persist.saveText` exactly.  `Node.reboot` is not a schema field, so a loaded node always has
 `reboot = False`: the round trip is stated up to `persisted` (which clears exactly that flag and
 keeps every attribute the property lists).
 -/
 import AioMySensors.Lemmas.PersistReach
+import AioMySensors.Lemmas.JsonText
 
 namespace AioMySensors.C13
 open AioMySensors Schema Persist
@@ -135,5 +138,42 @@ example : load (.obj [(cs!"x", .obj [(cs!"node_id", .str cs!" 7 "), (cs!"node_ty
     (cs!"children", .obj [(cs!" 3 ", .obj [(cs!"id", .int 3), (cs!"type", .int 6)]),
                           (cs!"3", .obj [(cs!"child_id", .int 4), (cs!"child_type", .int 7)])])])]) =
     .ok [(7, { ntype := 17, pv := [], battery := 100, sleeping := true, children := [(3, ⟨4, 7, [], []⟩)] })] := by decide
+
+/-! ### Through the text of the file
+
+`saveText r` is the text `save` writes (`json.dumps(…, sort_keys=True, indent=2)` of the schema dump);
+`JsonText.parse` is `json.loads`.  Hypotheses beyond `RegOK`: every integer attribute is printable
+(`regIntsOK`: `json.dumps` raises beyond the interpreter's digit limit; `RegOK` only bounds keys, id and
+battery level) and the registry is the canonical representative of its dict-equality class (`Canon`:
+keys in increasing order at the three levels, no `reboot` flag) — `sort_keys` writes every registry in
+that order (`saveSorted` sorts first), and `load` returns the dicts in file order. -/
+
+/-- **Round trip through the text**: `json.loads` reads the written text back as the value `save`
+handed to `json.dumps`, and `load` of that value is the registry. -/
+theorem saved_text_round_trip (r : PDict Int Node) (h : RegOK r) (hi : regIntsOK r = true) (hc : Canon r) :
+    JsonText.parse (saveText r) = .ok (saveSorted r) ∧ load (saveSorted r) = .ok r :=
+  ⟨parse_saveText r h hi hc, load_saveSorted r h hc⟩
+
+/-- … and from the bytes of the file through the whole of `Persistence.load`: UTF-8 decoding,
+`read or "{}"`, `json.loads`, the schema load. -/
+theorem saved_bytes_accepted (r : PDict Int Node) (h : RegOK r) (hi : regIntsOK r = true) (hc : Canon r) :
+    (JsonText.classify (saveBytes r)).map (loadFile []) = some (.ok ⟨r, none⟩) := by
+  have hl := load_saveSorted r h hc
+  simp only [load] at hl
+  simp [classify_saveBytes r h hi hc, loadFile, readFile, hl]
+
+/-- The written text is ASCII: its byte length is its character length. -/
+theorem saved_text_ascii (r : PDict Int Node) : (saveBytes r).length = (saveText r).length :=
+  JsonText.encodeUtf8_length_ascii _ (JsonText.render_ascii 0 _)
+
+/-- The boundary registry in canonical order satisfies the three hypotheses. -/
+def boundaryRegSorted : PDict Int Node :=
+  [(0, { ntype := 18, pv := "2.2.0".toList }),
+   (255, { ntype := -6, pv := [], battery := 100, heartbeat := -5, sleeping := true, sketchName := "température °C".toList,
+           children := [(0, ⟨0, 100000000000000000000, [], []⟩),
+                        (255, ⟨255, -6, "描述 é".toList, [(-5, []), (0, "x".toList), (100000000000000000000, "é".toList)]⟩)] })]
+
+example : RegOK boundaryRegSorted ∧ regIntsOK boundaryRegSorted = true ∧ Canon boundaryRegSorted := by decide
+example : canonReg boundaryReg = boundaryRegSorted := by decide
 
 end AioMySensors.C13
